@@ -50,6 +50,11 @@ type Canary struct {
 	Old  string `json:"old"`
 	New  string `json:"new"`
 	Tier string `json:"tier"` // "quick": run in both tiers; "thorough": thorough only
+	// More: further replacements in the same file (a mutation made of cooperating edits)
+	More []struct {
+		Old string `json:"old"`
+		New string `json:"new"`
+	} `json:"more"`
 }
 
 type TierCfg struct {
@@ -212,7 +217,14 @@ func overlayFor(u *Unit, propDir string, native bool, mutate *Canary) (map[strin
 		if !strings.Contains(string(src), mutate.Old) {
 			return nil, errCanaryNoMatch
 		}
-		ov[p] = []byte(strings.Replace(string(src), mutate.Old, mutate.New, 1))
+		text := strings.Replace(string(src), mutate.Old, mutate.New, 1)
+		for _, m := range mutate.More {
+			if !strings.Contains(text, m.Old) {
+				return nil, errCanaryNoMatch
+			}
+			text = strings.Replace(text, m.Old, m.New, 1)
+		}
+		ov[p] = []byte(text)
 	}
 	return ov, nil
 }
